@@ -861,9 +861,17 @@ def gen_code_for_conv(to_type, node, code, codegen):
         code.add((f'conv{from_char}{to_char}',))
 
 
+def gen_implicit_array_init(lvalue, code, codegen):
+    # the first use of an implicitly dimensioned array has to set the
+    # array up, whatever kind of statement that first use is in
+    if lvalue.implicit_decl and lvalue.implicit_decl.type.is_array:
+        gen_static_array_init(lvalue.implicit_decl, code, codegen)
+
+
 def gen_code_for_args(args, param_types, code, codegen):
     for arg, param_type in zip(args, param_types):
         if isinstance(arg, expr.Lvalue):
+            gen_implicit_array_init(arg, code, codegen)
             gen_lvalue_ref(arg, code, codegen)
         elif isinstance(arg, expr.ArrayPass):
             codegen.gen_code_for_node(arg, code)
@@ -1669,6 +1677,9 @@ def gen_if_stmt(node, code, codegen):
 def gen_input(node, code, codegen):
     code.add_string_literal(node.prompt.value)
 
+    for var in node.var_list:
+        gen_implicit_array_init(var, code, codegen)
+
     same_line = -1 if node.same_line else 0
     prompt_question = -1 if node.prompt_question else 0
     code.add(('push%', same_line))
@@ -1776,6 +1787,7 @@ def gen_randomize(node, code, codegen):
 @QvmCodeGen.generator_for(stmt.ReadStmt)
 def gen_read_stmt(node, code, codegen):
     for var in node.var_list:
+        gen_implicit_array_init(var, code, codegen)
         code.add(('push%', var.type.type_id))
         code.add(('io', 'data', 'read'))
         gen_lvalue_write(var, code, codegen)
